@@ -1,0 +1,125 @@
+//! Verification hook, compiled only with `--cfg pytest_language_server_verif`.
+//!
+//! When the environment variable `PLS_VERIF_TRACE` names a directory, every call of
+//! `analyze_file_internal` appends one ndjson event to `<dir>/<pid>.ndjson`: the arguments of the
+//! call and the slice of the index that belongs to the analysed file as it is when the call
+//! returns.  Nothing is recorded (and nothing is computed) when the variable is unset.
+
+use super::FixtureDatabase;
+use dashmap::DashMap;
+use once_cell::sync::Lazy;
+use serde_json::{json, Value};
+use std::collections::HashMap;
+use std::io::Write;
+use std::path::Path;
+use std::sync::{Mutex, Weak};
+
+type DefsMap = DashMap<String, Vec<super::FixtureDefinition>>;
+
+struct Sink {
+    out: std::fs::File,
+    seq: u64,
+    /// database identity: address of the `definitions` map.  The `Weak` pins the allocation, so an
+    /// address is never handed out twice while this process lives.
+    ids: HashMap<usize, (u64, Weak<DefsMap>)>,
+}
+
+static SINK: Lazy<Mutex<Option<Sink>>> = Lazy::new(|| {
+    let sink = std::env::var_os("PLS_VERIF_TRACE").and_then(|dir| {
+        let path = Path::new(&dir).join(format!("{}.ndjson", std::process::id()));
+        std::fs::OpenOptions::new()
+            .create(true)
+            .append(true)
+            .open(path)
+            .ok()
+            .map(|out| Sink {
+                out,
+                seq: 0,
+                ids: HashMap::new(),
+            })
+    });
+    Mutex::new(sink)
+});
+
+/// Contents larger than this are recorded without text and without the index slice.
+const MAX_TRACED_CONTENT: usize = 64 * 1024;
+
+impl FixtureDatabase {
+    /// Record one analysis.  Called when `analyze_file_internal` returns (also on a parse failure).
+    pub(crate) fn verif_trace_analysis(
+        &self,
+        file_path: &Path,
+        content: &str,
+        cleanup_previous: bool,
+        parsed: bool,
+    ) {
+        let mut guard = match SINK.lock() {
+            Ok(g) => g,
+            Err(p) => p.into_inner(),
+        };
+        let Some(sink) = guard.as_mut() else {
+            return;
+        };
+        let key = std::sync::Arc::as_ptr(&self.definitions) as usize;
+        let next = sink.ids.len() as u64 + 1;
+        let db = sink
+            .ids
+            .entry(key)
+            .or_insert_with(|| (next, std::sync::Arc::downgrade(&self.definitions)))
+            .0;
+        sink.seq += 1;
+        let big = content.len() > MAX_TRACED_CONTENT;
+        let mut ev = json!({
+            "seq": sink.seq,
+            "db": db,
+            "thread": format!("{:?}", std::thread::current().id()),
+            "ev": "analyze",
+            "path": file_path.to_string_lossy(),
+            "cleanup": cleanup_previous,
+            "parsed": parsed,
+            "big": big,
+            "version": self.definitions_version.load(std::sync::atomic::Ordering::SeqCst),
+        });
+        if !big {
+            ev["content"] = Value::String(content.to_string());
+            let mut defs = Vec::new();
+            for entry in self.definitions.iter() {
+                for d in entry.value().iter().filter(|d| d.file_path == file_path) {
+                    defs.push(json!({
+                        "key": entry.key(), "name": d.name, "line": d.line, "end_line": d.end_line,
+                        "sc": d.start_char, "ec": d.end_char, "scope": d.scope.as_str(),
+                        "autouse": d.autouse, "deps": d.dependencies, "yield_line": d.yield_line,
+                        "ret": d.return_type, "doc": d.docstring,
+                        "third": d.is_third_party, "plugin": d.is_plugin,
+                    }));
+                }
+            }
+            let usage = |u: &super::FixtureUsage| json!({"name": u.name, "line": u.line, "sc": u.start_char, "ec": u.end_char});
+            let uses: Vec<Value> = self
+                .usages
+                .get(file_path)
+                .map(|v| v.iter().map(usage).collect())
+                .unwrap_or_default();
+            let mut ubf = Vec::new();
+            for entry in self.usage_by_fixture.iter() {
+                for (p, u) in entry.value().iter().filter(|(p, _)| p == file_path) {
+                    let mut j = usage(u);
+                    j["key"] = Value::String(entry.key().clone());
+                    j["same_path"] = Value::Bool(*p == u.file_path);
+                    ubf.push(j);
+                }
+            }
+            let mut fdefs: Vec<String> = self
+                .file_definitions
+                .get(file_path)
+                .map(|s| s.iter().cloned().collect())
+                .unwrap_or_default();
+            fdefs.sort();
+            ev["post"] = json!({
+                "defs": defs, "uses": uses, "ubf": ubf, "fdefs": fdefs,
+                "cached": self.file_cache.contains_key(file_path),
+            });
+        }
+        let _ = writeln!(sink.out, "{}", ev);
+    }
+}
